@@ -47,6 +47,15 @@ def with_global_param_nested(ds):
     return ds.Select(lambda e: e.jets.Select(lambda j: j.calo().energy[G, 'em'](1)))
 def with_global_slice(ds):
     return ds.Select(lambda e: e.table[G])
+class _Cfg:
+    "an attribute-style configuration object: what it holds is served by __getattr__"
+    def __getattr__(self, name):
+        if name == "val":
+            return G
+        raise AttributeError(name)
+CFG = _Cfg()
+def with_getattr(ds):
+    return ds.Select(lambda e: e.f(CFG.val))
 def make_closure_deep(v):
     def inner(ds):
         return ds.Select(lambda e: e.jets.Select(lambda j: j.trks.Where(lambda t: t.pt > v)))
@@ -238,6 +247,7 @@ def run_value(mon, ds, capmod, v, rnd):
         ("capture.closure.Select", capmod.make_closure(v), lambda s: s.query_ast.args[1].body.elts[1]),
         ("capture.global.parameterized-call", capmod.with_global_param, lambda s: s.query_ast.args[1].body.func.slice),
         ("capture.global.parameterized-call-nested", capmod.with_global_param_nested, lambda s: s.query_ast.args[1].body.args[0].body.func.slice.elts[0]),
+        ("capture.attribute-served-by-__getattr__", capmod.with_getattr, lambda s: s.query_ast.args[1].body.args[0]),
         ("capture.global.subscript", capmod.with_global_slice, lambda s: s.query_ast.args[1].body.slice),
         ("capture.global.depth3", capmod.with_global_deep, lambda s: s.query_ast.args[1].body.args[0].body.args[0].body.comparators[0]),
         ("capture.global.depth4", capmod.with_global_deep4, lambda s: s.query_ast.args[1].body.args[0].body.args[0].body.args[0].body.elts[1]),
